@@ -90,11 +90,11 @@ def quant_waves(ctx):
     waves = []
     # exhaustive: every list of <= 2 flat items x every word
     firsts = list(range(0, NFLAT + 1))
-    per = 6
+    per = 2
     jobs = [{'prods': [{'a': firsts[i:i + per], 'b': list(range(0, NFLAT + 1)), 'c': [0], 'w': allw}], 'ids': []}
             for i in range(0, len(firsts), per)]
-    for i in range(0, len(jobs), 4):
-        waves.append(jobs[i:i + 4])
+    for i in range(0, len(jobs), 12):
+        waves.append(jobs[i:i + 12])
     n_s = 0
     for _ in range(4):
         ids = sample_ids(rng, 60000, 'flat3') + sample_ids(rng, 110000, 'sub')
